@@ -276,10 +276,20 @@ func (c *FnCtx) specEval(env *SpecEnv, e ast.Expr) *Val {
 					r.Typ = u.Elem()
 				}
 			}
+			if r.Typ != nil && c.sortOf(r.Typ) == SNone {
+				// slice of structs: the element is a reference to a pseudo-object holding the struct's fields
+				return &Val{S: SNone, Typ: r.Typ, Box: r.T, T: typeShortName(r.Typ)}
+			}
 			return r
 		case isArr(base.S):
 			_, vs := arrParts(base.S)
 			return &Val{T: tApp("select", base.T, idx.T), S: vs}
+		}
+		if base.Typ != nil {
+			if mt, ok := base.Typ.Underlying().(*types.Map); ok {
+				v, _ := c.mapLoad(env.st, base, mt, idx)
+				return v
+			}
 		}
 		c.specErr("cannot index %s", exprString(x.X))
 	case *ast.SliceExpr:
@@ -444,7 +454,7 @@ func (c *FnCtx) specCall(env *SpecEnv, x *ast.CallExpr) *Val {
 		if v.S == SStr || isSeq(v.S) {
 			return &Val{T: c.seqLen(v), S: SInt}
 		}
-		c.specErr("len of non-sequence %s", exprString(x.Args[0]))
+		c.specErr("len of non-sequence %s (sort %q type %v)", exprString(x.Args[0]), v.S, v.Typ)
 		return &Val{T: "0", S: SInt}
 	case "forall":
 		return quant("forall", SInt, true)
